@@ -6,9 +6,13 @@ package main
 
 import (
 	"bufio"
+	"flag"
 	"fmt"
 	"os"
+	"runtime"
 	"strings"
+	"sync"
+	"time"
 )
 
 type handler func(args []string) string
@@ -26,21 +30,72 @@ func run(h handler, args []string) (res string) {
 	return h(args)
 }
 
+// -par G: handle all input lines with G goroutines concurrently (results printed in input
+// order), then print "GOROUTINES <before> <after>": the number of goroutines before the
+// workers started and after they all returned (the library must leave none running).
+// -procs P sets GOMAXPROCS.
 func main() {
+	par := flag.Int("par", 0, "number of concurrent worker goroutines (0 = sequential)")
+	procs := flag.Int("procs", 0, "GOMAXPROCS")
+	flag.Parse()
+	if *procs > 0 {
+		runtime.GOMAXPROCS(*procs)
+	}
 	in := bufio.NewReaderSize(os.Stdin, 1<<20)
 	out := bufio.NewWriterSize(os.Stdout, 1<<20)
 	defer out.Flush()
+	handle := func(line string) string {
+		f := strings.Split(line, " ")
+		h, ok := handlers[f[0]]
+		if !ok {
+			return "UNKNOWN-TAG " + f[0]
+		}
+		return run(h, f[1:])
+	}
+	if *par > 0 {
+		var lines []string
+		for {
+			line, err := in.ReadString('\n')
+			line = strings.TrimRight(line, "\n")
+			if line != "" {
+				lines = append(lines, line)
+			}
+			if err != nil {
+				break
+			}
+		}
+		before := runtime.NumGoroutine()
+		results := make([]string, len(lines))
+		var wg sync.WaitGroup
+		start := make(chan struct{})
+		for g := 0; g < *par; g++ {
+			wg.Add(1)
+			go func(g int) {
+				defer wg.Done()
+				<-start // all workers start together: the very first library calls race each other
+				for i := g; i < len(lines); i += *par {
+					results[i] = handle(lines[i])
+				}
+			}(g)
+		}
+		close(start)
+		wg.Wait()
+		after := runtime.NumGoroutine()
+		for w := 0; after > before && w < 200; w++ {
+			time.Sleep(10 * time.Millisecond)
+			after = runtime.NumGoroutine()
+		}
+		for _, r := range results {
+			fmt.Fprintln(out, r)
+		}
+		fmt.Fprintf(out, "GOROUTINES %d %d\n", before, after)
+		return
+	}
 	for {
 		line, err := in.ReadString('\n')
 		line = strings.TrimRight(line, "\n")
 		if line != "" {
-			f := strings.Split(line, " ")
-			h, ok := handlers[f[0]]
-			if !ok {
-				fmt.Fprintf(out, "UNKNOWN-TAG %s\n", f[0])
-			} else {
-				fmt.Fprintln(out, run(h, f[1:]))
-			}
+			fmt.Fprintln(out, handle(line))
 		}
 		if err != nil {
 			break
